@@ -243,4 +243,3 @@ func Derive(c *Case, base RefSet, name string) RefSet {
 	}
 	return out
 }
-
